@@ -577,12 +577,16 @@ func c10Exec(scAny any, c *simcheck.Ctx) *simcheck.Violation {
 	// partially filled cache: pre-fetch a tape-chosen subset of project versions
 	t := c.Tapes.Get("prefill")
 	var pre []e4Dep
-	for k, ver := range want {
+	wantKeys := make([]string, 0, len(want))
+	for k := range want {
+		wantKeys = append(wantKeys, k)
+	}
+	sort.Strings(wantKeys) // draws must not depend on Go's map order
+	for _, k := range wantKeys {
 		if k != "" && t.Intn(2) == 0 {
-			pre = append(pre, e4Dep{k, ver})
+			pre = append(pre, e4Dep{k, want[k]})
 		}
 	}
-	sort.Slice(pre, func(i, j int) bool { return pre[i].Path < pre[j].Path })
 	if len(pre) > 0 && resolvable {
 		s, _, _ := e.call("cache2", false, func(res *Resolver) error {
 			for _, d := range pre {
